@@ -214,45 +214,28 @@ Example C36_sequential_closes_satisfiable :
 Proof. exact sequential_closes_run. Qed.
 Print Assumptions C36_sequential_closes_satisfiable.
 
-(** *** finding 5: the sentinel look-alike *)
-Theorem C36_pump_stops_only_on_close_refuted : ~ pump_stops_only_on_close_full.
-Proof. exact pump_stops_only_on_close_refuted. Qed.
-Print Assumptions C36_pump_stops_only_on_close_refuted.
-
-Theorem C36_pump_stops_only_on_close_partial :
-  forall cp tr s, grun rdisc (init cp) tr = Some s ->
+(** *** former finding 5 (repaired): the sentinel look-alike is an ordinary message *)
+Theorem C36_pump_stops_only_on_close :
+  forall cp tr s, run (init cp) tr = Some s ->
     (forall c, c_pump (gc s c) = PExit -> t_closed (gt s (c_topic (gc s c))) = true \/ c_closing (gc s c) = true)
     /\ (forall k, x_st (gx s k) = PExit ->
           t_closed (gt s (x_topic (gx s k))) = true \/ c_closing (gc s (x_client (gx s k))) = true).
-Proof. exact pump_stops_only_on_close_partial. Qed.
-Print Assumptions C36_pump_stops_only_on_close_partial.
+Proof. exact pump_stops_only_on_close_proof. Qed.
+Print Assumptions C36_pump_stops_only_on_close.
 
 Theorem C36_running_pump_takes :
-  forall cp tr s c, grun rdisc (init cp) tr = Some s ->
-    c_pump (gc s c) = PRun -> c_hold (gc s c) = None ->
+  forall s c, c_pump (gc s c) = PRun -> c_hold (gc s c) = None ->
     fis_empty (t_high (gt s (c_topic (gc s c)))) = false ->
     exists s', step s (EPumpTake c true) = Some s'.
 Proof. exact running_pump_takes. Qed.
 Print Assumptions C36_running_pump_takes.
 
-Example C36_lookalike_loses_request :
+Example C36_lookalike_is_delivered :
   exists s, run (init (mkCaps 2 2 5)) lookalike_trace = Some s
-    /\ c_pump (gc s 0) = PExit /\ c_topic (gc s 0) = 0
-    /\ t_closed (gt s 0) = false /\ c_closing (gc s 0) = false /\ s_qclosed s = false
-    /\ f_len (t_high (gt s 0)) = 1 /\ f_len (c_recv (gc s 0)) = 0
-    /\ step s (EPumpTake 0 true) = None /\ step s (EPumpPut 0) = None
-    /\ (forall o i, step s (ERecv 0 o i) = None)
-    /\ (forall r, step s (EWait 1 1 false r) = None).
+    /\ c_pump (gc s 0) = PRun /\ t_closed (gt s 0) = false
+    /\ c_held (gc s 0) = [(1, 1); (0, 0)] /\ s_deliv s = [1; 0].
 Proof. exact lookalike_runs. Qed.
-Print Assumptions C36_lookalike_loses_request.
-
-Example C36_nonzero_id_guard_satisfiable :
-  exists s, grun rdisc (init (mkCaps 2 2 5))
-              [ESub 0 0; ENew 0 0 1; ESend 1 0 true MForever SOk; EPumpTake 0 true; EPumpPut 0; ERecv 0 0 1;
-               EReply 0 0 1; EWait 1 0 false (WGot (RFor 1)); ECloseBegin 0; EPumpTake 0 true; ECloseEnd 0] = Some s
-            /\ c_pump (gc s 0) = PExit /\ t_closed (gt s 0) = true.
-Proof. exact rdisc_satisfiable. Qed.
-Print Assumptions C36_nonzero_id_guard_satisfiable.
+Print Assumptions C36_lookalike_is_delivered.
 
 (** *** finding 6: topics created inside a closed queue *)
 Theorem C36_closed_queue_no_open_topic_refuted : ~ closed_queue_no_open_topic_full.
